@@ -13,15 +13,22 @@
 
 spec fn nt_rank(n: Nonterminal) -> nat {
     match n {
+        // the alternatives of a nonterminal are tried at the same position: they must rank below it
         Nonterminal::Term => 20,
         Nonterminal::JumboTerm => 18,
+        Nonterminal::NonDependentPi => 17,     // begins with a small_term
         Nonterminal::GiantTerm => 16,
+        Nonterminal::LessThan | Nonterminal::LessThanOrEqualTo | Nonterminal::EqualTo | Nonterminal::GreaterThan
+        | Nonterminal::GreaterThanOrEqualTo => 15,  // begin with a huge_term
         Nonterminal::HugeTerm => 14,
+        Nonterminal::Sum | Nonterminal::Difference => 13,   // begin with a large_term
         Nonterminal::LargeTerm => 12,
         Nonterminal::MediumTerm => 10,
+        Nonterminal::Product | Nonterminal::Quotient => 9,  // begin with a small_term
         Nonterminal::SmallTerm => 8,
+        Nonterminal::Application => 7,          // begins with an atom
         Nonterminal::Atom => 6,
-        _ => 1,
+        _ => 1,                                 // begin with a token
     }
 }
 
@@ -311,11 +318,13 @@ proof fn lemma_npe_view(t: Term)
 }
 
 // ---- the contract of every parsing function ----------------------------------------------------------
-// v = (tree, next, confident).  The position stays inside the slice; a failed parse (ParseError at the root,
+// v = (tree, next, confident).  The position stays inside the slice and moves forward unless the parse failed (this
+// is what makes the mutual recursion terminate: measure (tokens left, nt_rank)); a failed parse (ParseError at the root,
 // or not confident) always carries a recorded error; and a tree without any recorded error contains no ParseError
 // node and is a derivation of the nonterminal from exactly the tokens start..next.
 spec fn good<'a>(n: Nonterminal, v: (Term<'a>, usize, bool), s: Seq<Token<'a>>, start: int) -> bool {
     start <= v.1 <= s.len()
+    && (!(v.0.variant is ParseError) ==> start < v.1)          // a successful parse consumes at least one token
     && (v.0.variant is ParseError ==> !err_free(v.0))
     && (!v.2 ==> !err_free(v.0))
     && (err_free(v.0) ==> npe(v.0) && shp(n, pview(v.0), s, start, v.1 as int))
